@@ -58,6 +58,13 @@ func replayOnce(c *Ctx, rf *ReplayFile) (bool, string, error) {
 			}
 		}
 		return false, "both schedules give identical files for target " + rf.Target, nil
+	case "lib-session":
+		ok, cold, warm := c.sessionDiffers(rf.Session, rf.Target)
+		if !ok {
+			return false, "the last step of the session produces the cold-process output for target " + rf.Target, nil
+		}
+		file, line, l0, l1, _ := firstFileDiff(stepByTarget(cold, rf.Target), stepByTarget(warm, rf.Target))
+		return true, fmt.Sprintf("target %s: %s line %d: %q in a cold process vs %q after the earlier step of the session", rf.Target, file, line, clip(l0, 100), clip(l1, 100)), nil
 	case "lib-c13-unseamed":
 		sigs := map[string]bool{}
 		for k := 0; k < 12; k++ {
@@ -130,7 +137,7 @@ func replayOnce(c *Ctx, rf *ReplayFile) (bool, string, error) {
 		}
 		return false, "8 runs of the unrewritten binary agree", nil
 	case "lib-c14":
-		ref, err := DoFresh(c.sc.Worker, &Req{Op: "gen", DSL: in, History: AllTargets, Fresh: true, Sched: *rf.RefSched, WantBytes: true}, 1)
+		ref, err := DoFresh(c.sc.Worker, &Req{Op: "gen", DSL: in, History: []string{rf.History[len(rf.History)-1]}, Sched: *rf.RefSched, WantBytes: true}, 1)
 		if err != nil {
 			return false, "", err
 		}
